@@ -82,6 +82,39 @@ def dyn_request(case, rec, ex):
             "terms": terms, "tree": rec["tree"], "splits": splits, "loop1": loop1, "levels": levels}
 
 
+def flat_request(case, rec, ex):
+    """product Einsum whose only mapping directive is flatten() of a tuple of ranks (no partitioning of the flattened rank):
+    the request for the Lean model Props/C03Flat.flatten_nest: loop order with the flattened rank expanded into its ranks, and
+    per loop whether all operands are co-iterated or one operand drives the loop and the others are looked up"""
+    e = case["eins"][0]
+    d = rec["yaml"]
+    parts = ((d.get("mapping") or {}).get("partitioning") or {}).get(e["out"]) or {}
+    if len(parts) != 1 or len(e["terms"]) != 1 or e["terms"][0]["kind"] != "times":
+        return None
+    (key, stack), = parts.items()
+    if stack != ["flatten()"] or not key.startswith("("):
+        return None
+    tup = [x.strip() for x in key.strip("()").split(",")]
+    flat = "".join(tup)
+    lo = ((d.get("mapping") or {}).get("loop-order") or {}).get(e["out"]) or (pool.loop_ranks(d) or {}).get(e["out"])
+    if lo is None or flat not in lo:
+        return None
+    terms = c01.lean_terms(case, ex)
+    holders = [i for i, x in enumerate(terms[0]["tensors"]) if all(r in x["ranks"] for r in tup)]
+    if len(holders) != 1:
+        return None
+    loop, modes = [], []
+    for r in lo:
+        if r == flat:
+            loop += tup; modes += [holders[0]] * len(tup)
+        else:
+            loop.append(r); modes.append("co")
+    if any(r not in case["ext"] for r in loop):
+        return None
+    return {"op": "nest_flat", "loop": loop, "exts": [case["ext"][r] for r in loop], "out_name": e["out"], "out_ranks": list(case["decl"][e["out"]]),
+            "terms": terms, "tree": rec["tree"], "modes": modes}
+
+
 def check_model(ctx, recs):
     """tie of C03.static_then_chain to the real compiler: the model nest (outer loops, split of the fibers reached at the
     leader's boundaries, inner loops) has the real program's loop skeleton and computes what the real program computes on the
@@ -93,19 +126,20 @@ def check_model(ctx, recs):
         for ex in r["execs"][:2]:
             if not ex.get("ok"):
                 continue
-            q = dyn_request(r["case"], r, ex)
+            q = dyn_request(r["case"], r, ex) or flat_request(r["case"], r, ex)
             if q is None:
                 ctx.stat("dynamic_model_not_applicable"); continue
             reqs.append(q); metas.append((r, r["case"], ex))
-    for (r, case, ex), a in zip(metas, common.lean_batch(reqs)):
+    for ((r, case, ex), a), q in zip(zip(metas, common.lean_batch(reqs)), reqs):
         if "error" in a:
             raise common.InternalError("lean: " + a["error"])
+        a_op = q["op"]
         out = case["eins"][0]["out"]
         real = c01.pts_set(ex["outputs"].get(out, []))
         run_, spec_ = c01.pts_set(a["run"]), c01.pts_set(a["spec"])
         nl = len(a["expected_loops"])
         skel_ok = [(v, sorted(fs)) for v, fs in a["expected_loops"]] == [(v, sorted(fs)) for v, fs in a.get("actual_loops", [])][:nl]
-        ctx.stat("dynamic_model_samples")
+        ctx.stat("dynamic_model_samples"); ctx.stat("model_" + a_op)
         if q_pre := a.get("hyps_ok"):
             ctx.stat("dynamic_model_hypotheses_hold")
         ok_h = bool(a["hyps_ok"])
@@ -147,7 +181,8 @@ def run(ctx):
     c02.check_records(ctx, recs)
     recs2 = pool.collect(ctx, [dict(gen="g3", count=30 * k, modes=["plain"], nexec=n, opts={"variant": "occ"}),
                                dict(gen="g3", count=20 * k, modes=["plain"], nexec=n, opts={"variant": "occ_under_shape"}),
-                               dict(gen="g3", count=20 * k, modes=["plain"], nexec=n, opts={"variant": "occ2"})])
+                               dict(gen="g3", count=20 * k, modes=["plain"], nexec=n, opts={"variant": "occ2"}),
+                               dict(gen="g3", count=20 * k, modes=["plain"], nexec=n, opts={"variant": "flatten"})])
     c02.check_records(ctx, recs2, need_reference=False)
     check_model(ctx, recs + recs2)
 
